@@ -485,6 +485,17 @@ func run(tapeJSON json.RawMessage, res *core.Result) {
 	if opErr == nil && resp != nil {
 		out = fmt.Sprint(resp.StatusCode)
 	}
+	for _, e := range srv.log {
+		if e.Resp != "200" {
+			res.Faults["server-answers-"+e.Resp]++
+		}
+		if e.HadBody && e.BodyLen < tp.BodySize {
+			res.Faults["server-answers-before-reading-the-body"]++
+		}
+	}
+	if tp.GapS > 0 {
+		res.Faults["clock-advanced-between-calls"]++
+	}
 	res.Class = fmt.Sprintf("%s>%s|%s|%s|%s|%s|n=%d|%s", strings.Join(tp.Script, ","), tp.Tail, tp.Method, bodyClass, tp.SPNMode, tp.Host, len(srv.log), out)
 	res.Stats["http_requests"] = int64(len(srv.log))
 	simrt.Logf("script=%v tail=%s method=%s api=%s requests=%d outcome=%s err=%s", tp.Script, tp.Tail, tp.Method, tp.API, len(srv.log), out, d.Err)
